@@ -46,6 +46,94 @@ Q_TYPES = [
 ]
 
 
+# repeat_count cells: constants and expressions get a generated `<repeat>_count` node, a bare reference does not
+COUNT_CONST = ["3", "2 + 1", "count-selected('a b')", "int(2.5)"]
+COUNT_REFS = ["${cnt0}", "${cnt0}", "${cnt0} + 1", "${cnt0}+1", "${cnt0} * ${cnt0}", "int(${cnt0})", "${cnt0} div 2",
+              "if(${cnt0} > 3, 3, ${cnt0})", "1 + ${cnt0}"]
+TRUTHY = ["yes", "Yes", "YES", "true", "True", "TRUE", "true()"]
+FALSY = ["no", "No", "false", "FALSE", "false()"]
+
+
+def disabled_noise(rng: random.Random, form: dict) -> dict:
+    """Rows marked disabled produce nothing — whatever kind of row carries the mark: questions, selects (even on a
+    list that does not exist), audit and other meta-producing rows, begin / end rows (balanced or not: they are not
+    seen), repeats with a count expression, rows that would otherwise be rejected (no name, calculate without
+    calculation).  A falsy mark (`no`, `false`) on an active row changes nothing.  Also adds, now and then, one
+    active audit row (the meta block must then hold exactly one `audit`)."""
+    import copy
+
+    form = copy.deepcopy(form)
+    rows = form["survey"]
+    names = {r.get("name") for r in rows}
+    lists = sorted({c.get("list_name") for c in form.get("choices", []) if c.get("list_name")})
+    k = [0]
+    # one spelling per sheet for the count column (two spellings of one column are a header error)
+    count_col = next((c for r in rows for c in ("repeat_count", "count", "jr:count") if c in r), "repeat_count")
+
+    def nm():
+        k[0] += 1
+        n = f"dz{k[0]}"
+        while n in names:
+            k[0] += 1
+            n = f"dz{k[0]}"
+        return n
+
+    def dead():
+        kind = rng.choice(["text", "audit", "audit", "select", "select_nolist", "begin", "end", "begin_count", "calc_nocalc",
+                           "noname", "badname", "meta", "notype", "pair", "note"])
+        d = rng.choice(TRUTHY)
+        if kind == "audit":
+            r = {"type": "audit"}
+            if rng.random() < 0.5:
+                r["name"] = rng.choice(["audit", "not_audit"])
+            if rng.random() < 0.3:
+                r["parameters"] = "track-changes=true"
+            return [dict(r, disabled=d)]
+        if kind == "select":
+            ln = rng.choice(lists) if lists else "nolist"
+            return [{"type": f"{rng.choice(['select_one', 'select_multiple', 'rank'])} {ln}" + rng.choice(["", "", " or_other"]),
+                     "name": nm(), "label": "x", "disabled": d}]
+        if kind == "select_nolist":
+            return [{"type": "select_one no_such_list", "name": nm(), "label": "x", "disabled": d}]
+        if kind == "begin":
+            return [{"type": rng.choice(["begin group", "begin repeat"]), "name": nm(), "label": "x", "disabled": d}]
+        if kind == "end":
+            return [{"type": rng.choice(["end group", "end repeat"]), "disabled": d}]
+        if kind == "begin_count":
+            return [{"type": "begin repeat", "name": nm(), "label": "x", count_col: rng.choice(["3", "2 + 1"]), "disabled": d}]
+        if kind == "calc_nocalc":
+            return [{"type": "calculate", "name": nm(), "disabled": d}]
+        if kind == "noname":
+            return [{"type": "integer", "label": "x", "disabled": d}]
+        if kind == "badname":
+            return [{"type": "text", "name": "1 bad name", "label": "x", "disabled": d}]
+        if kind == "meta":
+            return [{"type": rng.choice(["start", "end", "today", "deviceid", "start-geopoint", "background-audio", "hidden"]),
+                     "name": nm(), "disabled": d}]
+        if kind == "notype":
+            return [{"name": nm(), "label": "x", "disabled": d}]
+        if kind == "pair":
+            t = rng.choice(["group", "repeat"])
+            return [{"type": f"begin {t}", "name": nm(), "label": "x", "disabled": d},
+                    {"type": "text", "name": nm(), "label": "inside", "disabled": rng.choice(TRUTHY)},
+                    {"type": f"end {t}", "disabled": rng.choice(TRUTHY)}]
+        return [{"type": rng.choice(["text", "note", "integer", "image"]), "name": nm(), "label": "x", "disabled": d}]
+
+    out = []
+    for row in rows:
+        if rng.random() < 0.2:
+            out += dead()
+        if row and rng.random() < 0.15 and "disabled" not in row:
+            row = dict(row, disabled=rng.choice(FALSY))      # a falsy mark: the row stays
+        out.append(row)
+    if rng.random() < 0.3:
+        out += dead()
+    if rng.random() < 0.25 and not any(r.get("type") == "audit" and str(r.get("disabled", "no")) in FALSY for r in out):
+        out.insert(rng.randint(0, len(out)), {"type": "audit", **({"name": "audit"} if rng.random() < 0.5 else {})})
+    form["survey"] = out
+    return form
+
+
 def valid_params(rng: random.Random, t: str) -> dict:
     """A parameter assignment from the documented vocabulary of type `t` (possibly empty)."""
     p = {}
@@ -243,7 +331,7 @@ class AttrGen:
         for col, vals in rng.sample(self.custom, rng.choice([0, 0, 0, 1])):
             row[col] = rng.choice(vals)
         if kind == "repeat" and rng.random() < 0.5:
-            row[self.count_col] = rng.choice(["3", "2 + 1"] + (["${cnt0}"] if self.have_cnt else []))
+            row[self.count_col] = rng.choice(COUNT_CONST + (COUNT_REFS if self.have_cnt else []))
         if rng.random() < 0.05:
             row["parameters"] = rng.choice(["foo=bar", "nonsense"] if self.err_mode else ["foo=bar"])
         body = []
